@@ -32,6 +32,7 @@ type txnCtx struct {
 	inited  bool
 	cleared bool // a filter on a missing column truncated the selection
 	thread  int
+	abort   bool // the body will end in an error
 }
 
 // runTxn executes one transaction program on the primary and mirrors it into the model.
@@ -40,7 +41,7 @@ func (w *World) runTxn(prog *TxnProg, exact bool) {
 	mt := &MTxn{Thread: tid, Failed: map[uint32]bool{}}
 	w.txns[tid] = mt
 	w.stats.Txns++
-	x := &txnCtx{w: w, c: w.primary, mt: mt, checkReads: true, exact: exact}
+	x := &txnCtx{w: w, c: w.primary, mt: mt, checkReads: true, exact: exact, abort: prog.Abort}
 	err := w.primary.Query(func(txn *column.Txn) error {
 		x.txn = txn
 		for i := range prog.Ops {
@@ -74,6 +75,9 @@ func (w *World) runTxn(prog *TxnProg, exact bool) {
 		if prog.Abort {
 			w.fail(violation("query-result", "Query returned nil although the callback returned an error"))
 		}
+		if len(mt.Failed) > 0 {
+			w.noteTrigger("fail-in-commit")
+		}
 		w.stats.Commits++
 		changes := 0
 		for _, b := range mt.Blocks() {
@@ -85,9 +89,19 @@ func (w *World) runTxn(prog *TxnProg, exact bool) {
 		w.model.Apply(mt)
 	case err == errAbort || err == errStop:
 		w.stats.Aborts++
+		w.noteRollbackInsert(mt)
 		w.model.Abort(mt)
 	default:
 		w.fail(violation("query-result", "Query returned unexpected error %v", err))
+	}
+}
+
+// noteRollbackInsert records the trigger "a rolled-back transaction held a successful insert".
+func (w *World) noteRollbackInsert(mt *MTxn) {
+	for _, o := range mt.Ops {
+		if o.Kind == mInsert && !o.Dead {
+			w.noteTrigger("rollback-insert")
+		}
 	}
 }
 
@@ -236,6 +250,12 @@ func (x *txnCtx) insert(op *Op, key string) {
 	cb := func(r column.Row) error {
 		called = true
 		inCb = r.Index()
+		first := len(x.mt.Ops)
+		defer func() {
+			if op.Fail {
+				x.mt.killFrom(first)
+			}
+		}()
 		x.mt.add(MOp{Kind: mInsert, Off: inCb})
 		x.mine = append(x.mine, inCb)
 		// a fresh row must expose nothing (no stale data of a previous occupant)
@@ -243,6 +263,7 @@ func (x *txnCtx) insert(op *Op, key string) {
 		x.writes(r, inCb, op)
 		if op.Fail {
 			// the library frees the offset of a failing insert at once
+			x.noteFail()
 			x.mt.Failed[inCb] = true
 			delete(w.model.Reserved, inCb)
 			return errInsertFail
@@ -278,8 +299,26 @@ func (x *txnCtx) insert(op *Op, key string) {
 	}
 }
 
+// dupKey handles the known finding "one key written twice inside one transaction": it
+// returns true when the operation must be skipped, otherwise records the trigger.
+func (x *txnCtx) dupKey(key string) bool {
+	w := x.w
+	for _, o := range x.mt.Ops {
+		if kc, ok := w.model.KeyCol(); ok && o.Kind == mPut && o.Col == kc.Name && o.Val.S == key {
+			if w.avoid["dup-key-in-txn"] {
+				return true
+			}
+			w.noteTrigger("dup-key-in-txn")
+		}
+	}
+	return false
+}
+
 func (x *txnCtx) keyed(op *Op) {
 	w := x.w
+	if x.dupKey(op.Key) {
+		return
+	}
 	at, exists := w.model.KeyOf(op.Key)
 	// The committed key map is a reliable prediction only while no commit is in flight on
 	// another thread (the library applies the key write somewhere inside the commit).
@@ -294,11 +333,18 @@ func (x *txnCtx) keyed(op *Op) {
 		if w.reserves[x.thread] != before {
 			// the library reserved a fresh offset: insert path
 			inserted = true
+			first := len(x.mt.Ops)
+			defer func() {
+				if op.Fail {
+					x.mt.killFrom(first)
+				}
+			}()
 			x.mt.add(MOp{Kind: mInsert, Off: rowAt})
 			x.mine = append(x.mine, rowAt)
 			x.checkFresh(r, rowAt)
 			x.writes(r, rowAt, op)
 			if op.Fail {
+				x.noteFail()
 				x.mt.Failed[rowAt] = true
 				delete(w.model.Reserved, rowAt)
 				return errInsertFail
@@ -320,7 +366,7 @@ func (x *txnCtx) keyed(op *Op) {
 	if inserted {
 		// the library queues the key write after the callback, whatever it returned
 		kc, _ := w.model.KeyCol()
-		x.mt.add(MOp{Kind: mPut, Off: rowAt, Col: kc.Name, Val: MVal{S: op.Key}})
+		x.mt.add(MOp{Kind: mPut, Off: rowAt, Col: kc.Name, Val: MVal{S: op.Key}, Dead: op.Fail})
 	}
 	if called && (err != nil) != op.Fail {
 		w.fail(violation("key/result", "%s(%q): callback failed=%v but err=%v", op.Kind, op.Key, op.Fail, err))
@@ -414,6 +460,9 @@ func (x *txnCtx) writes(r column.Row, off uint32, op *Op) {
 			continue
 		case wr.SetKey:
 			key := wr.Val.Str()
+			if x.dupKey(key) {
+				continue
+			}
 			_, exists := w.model.KeyOf(key)
 			r.SetKey(key)
 			if !exists {
@@ -566,4 +615,11 @@ func (x *txnCtx) avoidWrite(off uint32, col ColSpec, kind mopKind) (mopKind, boo
 		}
 	}
 	return kind, true
+}
+
+// noteFail records the trigger "failing insert inside a transaction that commits".
+func (x *txnCtx) noteFail() {
+	if !x.abort {
+		x.w.noteTrigger("fail-in-commit")
+	}
 }
